@@ -4,6 +4,7 @@
  *   -DFUN= 0 reim_fftvec_mul_simple 1 reim_fftvec_addmul_simple 2 reim4_fftvec_mul_simple 3 reim4_fftvec_addmul_simple
  *          4 reim4_from_cplx_simple 5 reim4_to_cplx_simple 6 reim_from_znx64_simple 7 reim_to_znx64_simple
  *          8 cplx_from_znx32_simple 9 cplx_from_tnx32_simple 10 cplx_to_tnx32_simple 11 cplx_fftvec_mul_simple 12 cplx_fftvec_addmul_simple
+ *          13 reim_fft_simple 14 reim_ifft_simple 15 cplx_fft_simple 16 cplx_ifft_simple (in place; cos/sin uninterpreted)
  *   -DM1 -DM2 (dimensions)  -DD1 -DD2 (log2 divisors)  -DB1 -DB2 (log2bound / log2overhead)   -DAVX */
 #include "common.h"
 #include "reim/reim_fft_internal.h"
@@ -49,6 +50,14 @@ void* init_cplx_to_tnx32_precomp(CPLX_TO_TNX32_PRECOMP* res, uint32_t m, double 
 EXPORT void* init_cplx_fftvec_addmul_precomp(CPLX_FFTVEC_ADDMUL_PRECOMP* r, uint32_t m);
 EXPORT void* init_cplx_fftvec_mul_precomp(CPLX_FFTVEC_MUL_PRECOMP* r, uint32_t m);
 
+#if defined(__CPROVER__) && FUN >= 13
+/* the table builders of the transforms call libm: cos / sin are kept uninterpreted (same argument, same value - which is all that "the cached table
+ * equals a freshly built one" needs) */
+double __CPROVER_uninterpreted_cos(double x);
+double __CPROVER_uninterpreted_sin(double x);
+double cos(double x) { return __CPROVER_uninterpreted_cos(x); }
+double sin(double x) { return __CPROVER_uninterpreted_sin(x); }
+#endif
 uint64_t VF_OUT[2 * MX], VF_OUT2[2 * MX];
 uint64_t VF_OUT3[2 * MX], VF_OUT4[2 * MX]; /* the same-dimension / other-parameters call and its fresh-table twin */
 static double pow2(int e) {
@@ -89,8 +98,20 @@ static void call_simple(unsigned m, int dlog, unsigned bnd, uint64_t* r, const u
   cplx_to_tnx32_simple(m, pow2(dlog), bnd, (int32_t*)r, a);
 #elif FUN == 11
   cplx_fftvec_mul_simple(m, r, a, b);
-#else
+#elif FUN == 12
   cplx_fftvec_addmul_simple(m, r, a, b);
+#else
+  /* in-place transforms through the caching entry points: r := a, then transform r */
+  for (unsigned i = 0; i < 2 * m; ++i) r[i] = a[i];
+#if FUN == 13
+  reim_fft_simple(m, r);
+#elif FUN == 14
+  reim_ifft_simple(m, r);
+#elif FUN == 15
+  cplx_fft_simple(m, r);
+#else
+  cplx_ifft_simple(m, r);
+#endif
 #endif
 }
 
@@ -143,10 +164,25 @@ static void call_fresh_p(uint64_t* r, const uint64_t* a, const uint64_t* b, int 
   CPLX_FFTVEC_MUL_PRECOMP p;
   init_cplx_fftvec_mul_precomp(&p, M1);
   cplx_fftvec_mul(&p, r, a, b);
-#else
+#elif FUN == 12
   CPLX_FFTVEC_ADDMUL_PRECOMP p;
   init_cplx_fftvec_addmul_precomp(&p, M1);
   cplx_fftvec_addmul(&p, r, a, b);
+#else
+  for (unsigned i = 0; i < 2 * M1; ++i) r[i] = a[i];
+#if FUN == 13
+  REIM_FFT_PRECOMP* p = new_reim_fft_precomp(M1, 0);
+  reim_fft(p, (double*)r);
+#elif FUN == 14
+  REIM_IFFT_PRECOMP* p = new_reim_ifft_precomp(M1, 0);
+  reim_ifft(p, (double*)r);
+#elif FUN == 15
+  CPLX_FFT_PRECOMP* p = new_cplx_fft_precomp(M1, 0);
+  cplx_fft(p, r);
+#else
+  CPLX_IFFT_PRECOMP* p = new_cplx_ifft_precomp(M1, 0);
+  cplx_ifft(p, r);
+#endif
 #endif
 }
 static void call_fresh(uint64_t* r, const uint64_t* a, const uint64_t* b) { call_fresh_p(r, a, b, D1, B1); }
